@@ -264,7 +264,8 @@ func checkC16(w *World, r *Report) {
 	r.guard("R16.5", func() {
 		bm := w.Method("schema", "boolean", "Validate")
 		bfd, _ := w.FuncDecl(bm)
-		acc := acceptedStrings(p, bfd)
+		bf := w.SSAFunc(bm)
+		acc := acceptedStrings(w, bf, func(k string) bool { return len(bf.Params) > 0 && k == NewSym(w).Key(bf.Params[len(bf.Params)-1], nil) })
 		sort.Strings(acc)
 		r.Check(strings.Join(acc, ",") == "false,true", "R16.5", "boolean.Validate", bfd.Pos(), "true|false", "boolean accepts {"+strings.Join(acc, ",")+"}")
 		accept, _, epos := emptyValidateTable(w)
